@@ -40,7 +40,7 @@ REAL_VS_STUB = {
     "stub": ["the test-phase faults (vocabulary classes in simlib.py: EvilEq, RaisesEq, BadCopy)", "formatter states", "the user"],
 }
 CATS = ["create", "fix", "trim", "update"]
-TROUBLE = ["in_on_nonlist", "evil_dict_retry", "evil_dict_retry", "unorderable", "evil_align", "raiseseq_root", "nested_deleted", "nested_replaced", "nested_kept", "badcopy", "mixed_ops", "nested_dict", "evil_in", "nested_in_dictvalue"]
+TROUBLE = ["badcopy_existing", "subsub_nondict", "in_on_nonlist", "evil_dict_retry", "evil_dict_retry", "unorderable", "evil_align", "raiseseq_root", "nested_deleted", "nested_replaced", "nested_kept", "badcopy", "mixed_ops", "nested_dict", "evil_in", "nested_in_dictvalue"]
 
 
 def add_trouble(rng, f, kind, n):
@@ -57,6 +57,17 @@ def add_trouble(rng, f, kind, n):
     elif kind == "evil_align":
         site.update(arg=rng.choice(["[1, 2, 3]", "[0, 2]", "(4, 5)"]))
         ev["vals"] = [["list" if site["arg"].startswith("[") else "tuple", [["evileq", 1], ["int", 2]]]]
+    elif kind == "badcopy_existing":
+        # an uncopyable value meets a snapshot that already has content: usage error in the test, nothing recorded, session end must cope
+        site.update(op=rng.choice(["in", "le", "ge"]))
+        site["arg"] = "[1]" if site["op"] == "in" else "5"
+        ev["vals"] = [["badcopy", 1]]
+    elif kind == "subsub_nondict":
+        # s[key][key2] where s[key] is not a dict
+        site.update(arg="0")
+        ev["vals"] = [["int", 0]]
+        extra = [{"t": "stmt", "text": f"rec({eid + 's'!r}, lambda: snapshot_alias({{'a': 5, 'b': [1]}})['a']['b'] == 1)"},
+                 {"t": "stmt", "text": f"rec({eid + 't'!r}, lambda: 1 in snapshot_alias({{'a': 5, 'b': [1]}})['b']['c'])"}]
     elif kind == "in_on_nonlist":
         # `x in snapshot(<not a list>)`: plain python raises TypeError (int) or answers (tuple); session end must cope with both
         site.update(op="in", arg=rng.choice(["5", "(1, 2)", '{"a": 1}', "DCN(k=0)"]))
